@@ -533,6 +533,44 @@ theorem C03_set_then_get_reads_the_value (st : Store) (s k : Nat) (v : Int) (hid
         simp [hp] at h1
         rw [← h1]; exact hid i b hp
 
+/-- **`agentset[i]` and `agentset[i:j]` are Python's indexing of the ordered member list**: a non-negative index reads that
+    position; `-k` reads position `len - k` (`-1` is the last member) and raises `IndexError` beyond `-len`; a slice with bounds
+    inside the list is `take`/`drop`, an upper bound past the end stops at the end, and a negative bound `-k` denotes
+    `len - k` (clamped at the start). -/
+theorem C03_getitem_negative_indices_and_slices {α : Type} (l : List α) :
+    (∀ i : Nat, pyIndex l (i : Int) = l[i]?) ∧
+    (∀ k : Nat, 1 ≤ k → k ≤ l.length → pyIndex l (-(k : Int)) = l[l.length - k]?) ∧
+    (∀ k : Nat, l.length < k → pyIndex l (-(k : Int)) = none) ∧
+    (∀ a b : Nat, pySlice l (a : Int) (b : Int) = (l.drop (min a l.length)).take (min b l.length - min a l.length)) ∧
+    (∀ (k : Nat) (j : Int), 1 ≤ k → pySlice l (-(k : Int)) j = pySlice l ((l.length - k : Nat) : Int) j) ∧
+    (∀ (i : Int) (k : Nat), 1 ≤ k → pySlice l i (-(k : Int)) = pySlice l i ((l.length - k : Nat) : Int)) := by
+  refine ⟨fun i => by simp [pyIndex], fun k h1 h2 => ?_, fun k h => ?_, fun a b => ?_, fun k j h1 => ?_, fun i k h1 => ?_⟩
+  · have hneg : ¬ (0 : Int) ≤ -(k : Int) := by omega
+    have hle : -(-(k : Int)) ≤ (l.length : Int) := by omega
+    simp only [pyIndex, hneg, if_false, hle, if_true]
+    simp
+  · have hneg : ¬ (0 : Int) ≤ -(k : Int) := by omega
+    have hle : ¬ -(-(k : Int)) ≤ (l.length : Int) := by omega
+    simp only [pyIndex, hneg, if_false, hle]
+  · have ha : ¬ ((a : Int) < 0) := by omega
+    have hb : ¬ ((b : Int) < 0) := by omega
+    simp [pySlice, pyClamp, ha, hb]
+  · have hk : (-(k : Int)) < 0 := by omega
+    have hc : pyClamp l.length (-(k : Int)) = pyClamp l.length ((l.length - k : Nat) : Int) := by
+      have h2 : ¬ (((l.length - k : Nat) : Int) < 0) := by omega
+      simp only [pyClamp, hk, if_true, h2, if_false]
+      omega
+    simp only [pySlice, hc]
+  · have hk : (-(k : Int)) < 0 := by omega
+    have hc : pyClamp l.length (-(k : Int)) = pyClamp l.length ((l.length - k : Nat) : Int) := by
+      have h2 : ¬ (((l.length - k : Nat) : Int) < 0) := by omega
+      simp only [pyClamp, hk, if_true, h2, if_false]
+      omega
+    simp only [pySlice, hc]
+
+example : pyIndex [10, 20, 30] (-1) = some 30 ∧ pyIndex [10, 20, 30] (-4) = none ∧ pySlice [10, 20, 30, 40] 1 (-1) = [20, 30] ∧
+    pySlice [10, 20, 30, 40] (-3) 9 = [20, 30, 40] := by decide
+
 /-! ### non-vacuity: a concrete store exercising the statements above -/
 
 private def demo : Store :=
